@@ -29,6 +29,15 @@ class MachineryFailure(Exception):
     pass
 
 
+def scale(n, lo=1):
+    """VERIF_SCALE shrinks/grows sample sizes (debugging aid; default 1.0)"""
+    try:
+        f = float(os.environ.get('VERIF_SCALE', '1'))
+    except ValueError:
+        f = 1.0
+    return max(lo, int(n * f))
+
+
 def seed_from_env():
     try:
         return int(os.environ.get('VERIF_SEED', '0'))
@@ -271,13 +280,29 @@ class Reporter:
                 print('KNOWN-FINDING: property=%s %s (%d case(s) this run)' % (self.pid, fnd['what'], len(hits)))
                 self.ev.cov['known_findings_printed'].append({'id': fnd['id'], 'cases': len(hits)})
         self.ev.violations = len(self.new)
+        hist = {}
+        for case in self.new:
+            hist[case.get('clause', '?')] = hist.get(case.get('clause', '?'), 0) + 1
+        if hist:
+            self.ev.cov['violation_clauses'] = hist
+            for k, v in sorted(hist.items(), key=lambda kv: -kv[1])[:12]:
+                print('  %6d x %s' % (v, k))
+        # write one replay per distinct clause first
+        seen = set()
+        ordered = []
+        for case in self.new:
+            if case.get('clause') not in seen:
+                seen.add(case.get('clause'))
+                ordered.append(case)
+        ordered += [c for c in self.new if c not in ordered[:len(seen)]][:5]
+        self.new_ordered = ordered
         paths = []
-        for case in self.new[:5]:
+        for case in self.new_ordered[:8]:
             p = write_replay(self.pid, case)
             paths.append(p)
             print('VIOLATION property=%s replay=%s' % (self.pid, p))
-        if len(self.new) > 5:
-            print('(%d further violations of %s not written out)' % (len(self.new) - 5, self.pid))
+        if len(self.new) > 8:
+            print('(%d further violations of %s not written out)' % (len(self.new) - 8, self.pid))
         self.ev.write()
         return 1 if self.new else 0
 
@@ -310,18 +335,25 @@ def run_check(pid, body):
 # ----------------------------------------------------------------------------------------
 # worker pool (fork; lark imported from /repo's working tree in the children)
 # ----------------------------------------------------------------------------------------
+def _worker_init():
+    # lark runs only in pool workers: cap their address space so a runaway parse cannot take the machine down
+    import resource
+    try:
+        resource.setrlimit(resource.RLIMIT_AS, (6 << 30, 6 << 30))
+    except Exception:
+        pass
+
+
 def pmap(func, items, chunksize=None, procs=None):
     import multiprocessing as mp
     items = list(items)
     if not items:
         return []
-    procs = procs or NCPU
-    if procs <= 1 or len(items) < 4:
-        return [func(x) for x in items]
+    procs = min(procs or NCPU, len(items))
     ctx = mp.get_context('fork')
     if chunksize is None:
         chunksize = max(1, len(items) // (procs * 8))
-    with ctx.Pool(procs) as pool:
+    with ctx.Pool(procs, initializer=_worker_init) as pool:
         return pool.map(func, items, chunksize=chunksize)
 
 
